@@ -252,8 +252,8 @@ func (g *gen) zero(t types.Type, sub tsubst) string {
 	case kStruct:
 		r := g.record(t.(*types.Named))
 		var fs []string
-		for _, f := range r.fields {
-			fs = append(fs, g.zero(f.typ, nil))
+		for i := range r.fields {
+			fs = append(fs, r.fields[i].zero(g))
 		}
 		if len(r.omitted) > 0 {
 			g.note(fmt.Sprintf("the zero value of %s is built without its untranslated fields", r.name))
@@ -267,10 +267,27 @@ func (g *gen) zero(t types.Type, sub tsubst) string {
 // ---------- records ----------
 
 type recField struct {
-	goName string
-	name   string // Coq projection
-	setter string
-	typ    types.Type
+	goName  string
+	name    string // Coq projection
+	setter  string
+	typ     types.Type
+	nilable bool // a slice / map field kept as an option (Target.NilableFields)
+}
+
+// coqType: the Coq type of the field in the record.
+func (f *recField) coqType(g *gen) string {
+	if f.nilable {
+		return "(option " + g.typ(f.typ, nil) + ")"
+	}
+	return g.typ(f.typ, nil)
+}
+
+// zero: the zero value of the field.
+func (f *recField) zero(g *gen) string {
+	if f.nilable {
+		return "None"
+	}
+	return g.zero(f.typ, nil)
 }
 
 type recInfo struct {
@@ -333,7 +350,19 @@ func (g *gen) record(n *types.Named) *recInfo {
 			}
 			_ = ty
 			fk := key + "." + f.Name()
-			r.fields = append(r.fields, recField{goName: f.Name(), typ: f.Type(),
+			nilable := false
+			if tt := g.types[namedPath(n)]; tt != nil {
+				for _, nf := range tt.NilableFields {
+					if nf == f.Name() {
+						if k := g.kind(f.Type(), nil); k != kSlice && k != kMap {
+							g.fail("NilableFields: field %s of %s is neither a slice nor a map", nf, tn)
+						}
+						nilable = true
+						g.note("field " + tn + "." + nf + " is kept as an option: None = nil (NilableFields)")
+					}
+				}
+			}
+			r.fields = append(r.fields, recField{goName: f.Name(), typ: f.Type(), nilable: nilable,
 				name:   g.claim(fk, tn+"_"+f.Name(), r.name+"_"+f.Name()),
 				setter: g.claim(fk+"#set", "set_"+tn+"_"+f.Name(), "set_"+r.name+"_"+f.Name())})
 		}
@@ -365,7 +394,7 @@ func (g *gen) record(n *types.Named) *recInfo {
 			if i == len(r.fields)-1 {
 				sep = " }."
 			}
-			fmt.Fprintf(&b, "  %s : %s%s\n", f.name, g.typ(f.typ, nil), sep)
+			fmt.Fprintf(&b, "  %s : %s%s\n", f.name, f.coqType(g), sep)
 		}
 		for i, f := range r.fields {
 			var args []string
@@ -376,7 +405,7 @@ func (g *gen) record(n *types.Named) *recInfo {
 					args = append(args, "("+f2.name+" r)")
 				}
 			}
-			fmt.Fprintf(&b, "Definition %s (v : %s) (r : %s) : %s := %s %s.\n", f.setter, g.typ(f.typ, nil), r.name, r.name, r.ctor, strings.Join(args, " "))
+			fmt.Fprintf(&b, "Definition %s (v : %s) (r : %s) : %s := %s %s.\n", f.setter, f.coqType(g), r.name, r.name, r.ctor, strings.Join(args, " "))
 		}
 		it.name = r.name
 		it.text = b.String()
@@ -495,11 +524,49 @@ func elemOf(t types.Type) types.Type {
 	return nil
 }
 
+// concreteOf: for an interface type declared Nilable with Concrete: the struct type T whose pointer
+// every value of the interface holds.
+func (g *gen) concreteOf(t types.Type, sub tsubst) *types.Named {
+	t = resolve(t, sub)
+	tt := g.types[namedPath(t)]
+	if tt == nil || tt.Concrete == "" {
+		return nil
+	}
+	if _, isIface := t.Underlying().(*types.Interface); !isIface {
+		return nil
+	}
+	full := expandPkg(tt.Concrete)
+	i := strings.LastIndex(full, ".")
+	if i < 0 {
+		g.fail("Concrete: %s is not of the form <pkg>.<Type>", tt.Concrete)
+	}
+	p := g.L.pkgs[full[:i]]
+	if p == nil || p.Types == nil {
+		g.fail("Concrete: package %s is not loaded", full[:i])
+	}
+	obj := p.Types.Scope().Lookup(full[i+1:])
+	if obj == nil {
+		g.fail("Concrete: type %s not found", full)
+	}
+	n, ok := obj.Type().(*types.Named)
+	if !ok || g.kind(n, nil) != kStruct {
+		g.fail("Concrete: %s is not a struct type", full)
+	}
+	if !types.Implements(types.NewPointer(n), t.Underlying().(*types.Interface)) {
+		g.fail("Concrete: *%s does not implement %s", full, namedPath(t))
+	}
+	g.note("every value of interface type " + namedPath(t) + " holds a *" + full + " (or is nil): option Concrete")
+	return n
+}
+
 // nilableElem: the Coq type of the non-nil content of a Nilable interface type.
 func (g *gen) nilableElem(t types.Type, sub tsubst) string {
 	t = resolve(t, sub)
 	np := namedPath(t)
 	tt := g.types[np]
+	if n := g.concreteOf(t, sub); n != nil {
+		return "(ptr " + g.typ(n, nil) + ")"
+	}
 	if tt != nil && tt.Opaque {
 		return g.opaque(t, sub)
 	}
@@ -513,6 +580,9 @@ func (g *gen) nilableElem(t types.Type, sub tsubst) string {
 // nilableIsFn: the content of the Nilable interface type is a function.
 func (g *gen) nilableIsFn(t types.Type, sub tsubst) bool {
 	tt := g.types[namedPath(resolve(t, sub))]
+	if tt != nil && tt.Concrete != "" {
+		return false
+	}
 	return tt == nil || !tt.Opaque
 }
 
